@@ -39,6 +39,8 @@ def run(ctx):
     c05.cumulative_count_check_agrees(ctx, P)
     c05.s2k_specifier_length_agrees(ctx, P)
     c05.unprotected_checksum_on_every_ok_path(ctx, P)
+    from rules import c12
+    c12.derived_key_sized_by_the_cipher_in_use(ctx, P)
 
 
 def unlock(ctx, P):
